@@ -120,3 +120,8 @@ def run (mode : String) : IO UInt32 := do
   return 0
 
 end Driver.C19
+
+def main (args : List String) : IO UInt32 :=
+  match args with
+  | [mode] => Driver.C19.run mode
+  | _ => do IO.eprintln "usage: drv_c19 model|spec"; return 2
